@@ -2,6 +2,11 @@
 
 package tiering
 
+import "time"
+
 // VerifRunScheduled runs the function the cron entry calls (the scheduler's
 // cycle with its own time-out context), without starting the cron library.
 func (m *Manager) VerifRunScheduled() { m.scheduler.runMigration() }
+
+// VerifTierCacheTTL exposes the running value of the tier look-up cache TTL.
+func VerifTierCacheTTL() time.Duration { return tierCacheTTL }
